@@ -864,3 +864,12 @@ def c16_j(ctx):
                   '`{}` puts the object\'s own value into the document, and {} rewrites nested '
                   'mappings in place (`{}`): after save() the sample\'s `samples` hold lists'
                   .format(src(n)[:50], conv.name, src(nested[0])[:50]), fn=so, node=n)
+
+
+@obligation('C16-k', 'T6 T11', 'a requested warm-up length of 0 is never tested by truth value',
+            floor=1,
+            necessary='`warmup or n // 2` replaces a requested warm-up of 0 by half the chain: the '
+                      'sample then lacks a prefix the caller did not ask to be removed')
+def c16_k(ctx):
+    from .base import zero_is_valid_obligation
+    zero_is_valid_obligation(ctx, ['warmup'])
